@@ -1,6 +1,7 @@
 package c01
 
 import (
+	"math/rand"
 	"context"
 	"fmt"
 	amath "github.com/marekgalovic/anndb/math"
@@ -96,6 +97,38 @@ func datasetCase(rec *mon.Recorder, c int) {
 	}
 	searches := 0
 	for round := 0; round < 6; round++ {
+		if round == 3 && c%2 == 0 {
+			// half-way, the membership-and-catalogue log is compacted everywhere and a node is restarted: it builds
+			// the dataset (its metric, its partitions) from the catalogue snapshot and its partitions from their own
+			// logs; what it answers afterwards is judged like everything else
+			for _, n := range cl.Nodes {
+				cl.TriggerSnapshot(n, uuid.Nil, 0)
+			}
+			time.Sleep(100 * time.Millisecond)
+			victim := cl.Nodes[rng.Intn(nodes)]
+			if err := cl.Restart(victim.Idx); err != nil {
+				rec.Inconclusive(fmt.Sprintf("%s: restart of node %d: %v", desc, victim.Id, err))
+				return
+			}
+			if cl.WaitFor(20*time.Second, func() bool { return victim.Dataset(dsId) != nil }) != nil {
+				rec.Inconclusive(fmt.Sprintf("%s: node %d does not know the dataset after its restart", desc, victim.Id))
+				return
+			}
+			// the others reach it again (their cached connections to it were broken by the restart)
+			cl.WaitFor(15*time.Second, func() bool {
+				for _, n := range cl.Nodes {
+					sctx, cancel := context.WithTimeout(ctx, 2*time.Second)
+					_, err := n.Dataset(dsId).Search(sctx, cfg.Vec(rand.New(rand.NewSource(1))), 1)
+					cancel()
+					if err != nil {
+						return false
+					}
+				}
+				return true
+			})
+			ops = append(ops, fmt.Sprintf("catalogue log compacted; node %d restarted", victim.Id))
+			rec.Count("dataset_cases_with_a_restart_from_a_catalogue_snapshot", 1)
+		}
 		for s := 0; s < 12; s++ {
 			id := hx.Id(c*1000 + rng.Intn(30))
 			via := cl.Nodes[rng.Intn(nodes)].Dataset(dsId)
